@@ -18,7 +18,7 @@ import (
 // universe of spec/TraceTxn.tla (TNB, TNT)
 const (
 	traceNB = 4
-	traceNT = 3
+	traceNT = 6
 )
 
 // Event is one NDJSON line of a txn trace; every field is always present.
@@ -325,11 +325,19 @@ func randomHistory(s *session, rng *rand.Rand, length int) error {
 	nb := 2 + rng.Intn(traceNB-1) // branches in play
 	staged := map[int]map[int]bool{}
 	status := map[int]string{} // the driver's own idea, only to pick sensible operations
+	noneOpen := func() bool {
+		for _, st := range status {
+			if st == "inprogress" {
+				return false
+			}
+		}
+		return true
+	}
 	for i := 0; i < length; i++ {
 		in := &Event{How: "-"}
 		r := rng.Intn(100)
 		switch {
-		case len(s.txs) == 0 || (r < 8 && len(s.txs) < traceNT):
+		case len(s.txs) < traceNT && (noneOpen() || r < 6):
 			in.Op, in.Tx = "start", len(s.txs)+1
 			status[in.Tx] = "inprogress"
 			staged[in.Tx] = map[int]bool{}
@@ -350,7 +358,7 @@ func randomHistory(s *session, rng *rand.Rand, length int) error {
 		default:
 			in.Tx = 1 + rng.Intn(len(s.txs))
 			// mostly transactions still in progress; sometimes a committed / discarded one
-			if status[in.Tx] != "inprogress" && rng.Intn(100) < 70 {
+			if status[in.Tx] != "inprogress" && rng.Intn(100) < 80 {
 				for t := 1; t <= len(s.txs); t++ {
 					if status[t] == "inprogress" {
 						in.Tx = t
